@@ -7,11 +7,12 @@ open Scrapli Scrapli.Netconf.Store
 
 * `scan <hex>` → `m10 m11 after10 after11 rpc id` : the scanners on one byte string
   (`after*` and `id` are `N` when there is no match) — diffed against Go `regexp` by the harness.
-* `sess <1.0|1.1> <script>` → `dom model pending spec` where the script is a `;`-separated list of
+* `sess <1.0|1.1> <script>` → `dom reasons model pending spec` where the script is a `;`-separated list of
   `C` (call) `P` (poll) `X` (expire) `R<hex>` (one read) and deliveries
   `D|E:<body>:<tail>|<chunks>`, `D|R:<to>:<body>:<tail>|<chunks>`,
   `D|ER:<ebody>:<etail>:<to>:<body>:<tail>|<chunks>` (chunks: comma separated hex, `.` = none).
-  `dom` = every delivery satisfies `Delivery.valid`; `model` / `spec` = completed calls as
+  `dom` = every delivery satisfies `Delivery.valid` and there are no reads outside deliveries;
+  `reasons` = per delivery the first failing hypothesis (`ok` if none); `model` / `spec` = completed calls as
   `id:hex` / `id:T` joined by `,` (`.` = none). `model` carries the raw message the model's call
   returned; `spec` the reply the server framed (body only) that the property says must come back.
 -/
@@ -74,6 +75,33 @@ def specStep (s : SpecSt) : Item → SpecSt
     | some id => { s with pending := none, results := s.results ++ [(id, none)] }
   | .dlv d => { s with delivered := s.delivered ++ d.burst.replies }
 
+/-- the hypotheses of `goodReply` / `goodEcho` / `Delivery.valid` that fail, joined by `+`
+(`ok` if none) -/
+def joinReasons (l : List (Bool × String)) : String :=
+  let bad := (l.filter (·.1)).map (·.2)
+  if bad.isEmpty then "ok" else "+".intercalate bad
+
+def replyReason (v : Ver) (r : Reply) : String :=
+  joinReasons [(!allLF r.tail, "tail"), (containsRpcClose (r.body ++ r.tail), "rpc"),
+    (!delimMatch v r.body, "nofire"), (!noEarlyFire v r.body, "early"),
+    (!(firstId r.body == some r.to && r.to != 0), "id"),
+    (!(v == .v10 || startsLFOrEmpty r.body), "start")]
+
+def echoReason (v : Ver) (e : Echo) : String :=
+  joinReasons [(!allLF e.tail, "etail"), (!containsRpcClose e.body, "erpc"),
+    (!delimMatch v e.body, "enofire"), (!noEarlyFire v e.body, "eearly"),
+    (!(afterFirstOpt v e.body == some []), "eafter")]
+
+def deliveryReason (v : Ver) (d : Delivery) : String :=
+  let r := match d.burst with
+    | .echoOnly e => echoReason v e
+    | .replyOnly r => replyReason v r
+    | .echoReply e r => if echoReason v e != "ok" then echoReason v e else replyReason v r
+  if r != "ok" then r
+  else if !(d.chunks.flatten == d.burst.bytes) then "seg"
+  else if !d.valid v then "idle"
+  else "ok"
+
 def showOptBytes : Option Bytes → String
   | some b => toHex b
   | none => "N"
@@ -88,11 +116,13 @@ def handleC08 : List String → String
   | ["sess", v, script] =>
     match c08ver v, (script.splitOn ";").mapM parseItem with
     | some v, some items =>
-      let dom := items.all fun it => match it with | .dlv d => d.valid v | _ => true
+      let dom := items.all fun it => match it with | .dlv d => d.valid v | .ev (.read _) => false | _ => true
+      let rs := items.filterMap fun it => match it with | .dlv d => some (deliveryReason v d) | _ => none
+      let reasons := if rs.isEmpty then "." else ",".intercalate rs
       let c := run v init (items.flatMap itemEvents)
       let sp := items.foldl specStep ⟨Gen.Netconf.initialMessageID, none, [], []⟩
       let pend := match c.pending with | some id => toString id | none => "-"
-      s!"{b2s dom} {showResults c.results} {pend} {showResults sp.results}"
+      s!"{b2s dom} {reasons} {showResults c.results} {pend} {showResults sp.results}"
     | _, _ => "bad-op"
   | _ => "bad-op"
 
